@@ -263,7 +263,7 @@ func (c *Ctx) sectionWindow(rule string) {
 			}
 		}
 	}
-	R.Min(rule, "slices of Section.literal in Section methods", n, 4)
+	R.Min(rule, "slices of Section.literal in Section methods", n, 2)
 }
 
 func isIntKind(t types.Type) bool {
